@@ -268,3 +268,49 @@ def fold_zero_is_a_sequence(x: int, y: int, p: int, q: int) -> bool:
     v = dict(x=x, y=y, p=p, q=q)
     return ev(T['fold_zero_empty'], **v) == [0, 0, 0] and ev(T['fold_zero_seq'], **v) == [p, q, x, y] and ev(T['fold_zero_seq_r'], **v) == [x, y, p, q] \
         and ev(T['fold_zero_arr'], **v) == [x, y, p] and ev(T['fold_zero_none'], **v) == [y, x]
+
+
+# --- added after round-4 seeded changes: for-each-pair stops at the shorter sequence; a named reference keeps the focus it was created under ---
+
+T.update(parse_all({
+    'fep': 'for-each-pair($A, $B, function($a, $b) { ($a, $b) })', 'fep_count': 'for-each-pair($A, $B, function($a, $b) { count(($a, $b)) })',
+    'fep_named': 'for-each-pair($A ! string(.), $B ! string(.), concat#2)',
+}))
+
+
+@ob(budget=150, bound='A, B: sequences of 0..3 unbounded integers (lengths chosen by the solver): for-each-pair applies the function to min(|A|, |B|) pairs',
+    funcs=['elementpath/xpath30/_xpath30_functions.py:select__for_each_pair'])
+def for_each_pair_stops_at_the_shorter(a0: int, a1: int, a2: int, n: int, b0: int, b1: int, b2: int, m: int) -> bool:
+    """
+    pre: 0 <= n <= 3 and 0 <= m <= 3
+    post: _
+    """
+    A, Bs = [a0, a1, a2][:n], [b0, b1, b2][:m]
+    k = min(n, m)
+    return ev(T['fep'], A=A, B=Bs) == [w for x, y in zip(A, Bs) for w in (x, y)] and ev(T['fep_count'], A=A, B=Bs) == [2] * k
+
+
+import xml.etree.ElementTree as _CET16  # noqa: E402
+T.update(parse_all({
+    'ref_focus': 'let $fs := /r/* ! local-name#0 return (for $f in $fs return $f(), local-name())',
+    'ref_focus_step': 'let $f := /r/*[2]/local-name#0, $g := (/r/*)[1]/string#0 return ($f(), $g(), /r/*[last()] ! ($f(), $g()))',
+}))
+
+
+@ob(budget=120, bound='element r with 3 children whose tags come from {a, b} and whose text is a digit (chosen by the solver): references to focus-dependent '
+                      'functions (local-name#0, string#0) created under a path step or ! and called later return the values of THEIR focus',
+    funcs=['elementpath/xpath30/_xpath30_operators.py:evaluate__function_reference', 'elementpath/xpath_tokens/functions.py:XPathFunction.__call__'])
+def named_reference_keeps_its_focus(t0: bool, t1: bool, t2: bool, d: int) -> bool:
+    """
+    pre: 0 <= d <= 2
+    post: _
+    """
+    tags = ['a' if t else 'b' for t in (t0, t1, t2)]
+    r = _CET16.Element('r')
+    for k, t in enumerate(tags):
+        _CET16.SubElement(r, t).text = str((0 if d == 0 else 1 if d == 1 else 2) + k)
+    d = 0 if d == 0 else 1 if d == 1 else 2
+    from harness.common import XPathContext as _C, L as _L
+    doc = _CET16.ElementTree(r)
+    return _L(T['ref_focus'].evaluate(_C(doc, item=r))) == tags + ['r'] \
+        and _L(T['ref_focus_step'].evaluate(_C(doc, item=r))) == [tags[1], str(d), tags[1], str(d)]
